@@ -54,6 +54,15 @@ impl ListT {
 pub open spec fn isum(s: Seq<int>) -> nat decreases s.len() { if s.len() == 0 { 0 } else { isum(s.drop_last()) + w_of(s.last()) as nat } }
 pub open spec fn nodup(s: Seq<int>) -> bool { forall|i: int, j: int| 0 <= i < s.len() && 0 <= j < s.len() && s[i] == s[j] ==> i == j }
 pub proof fn lemma_isum_push(s: Seq<int>, x: int) ensures isum(s.push(x)) == isum(s) + w_of(x) as nat { assert(s.push(x).drop_last() =~= s); }
+/// every element of a sequence but its first is an element of the rest
+pub proof fn lemma_pop_front_keeps_the_rest()
+    ensures forall|s: Seq<int>, y: int| s.len() > 0 && s.contains(y) && y != s[0] ==> #[trigger] s.subrange(1, s.len() as int).contains(y),
+{
+    assert forall|s: Seq<int>, y: int| s.len() > 0 && s.contains(y) && y != s[0] implies #[trigger] s.subrange(1, s.len() as int).contains(y) by {
+        let i = choose|i: int| 0 <= i < s.len() && s[i] == y;
+        assert(s.subrange(1, s.len() as int)[i - 1] == y);
+    }
+}
 pub proof fn lemma_isum_empty(s: Seq<int>) requires s.len() == 0 ensures isum(s) == 0 { }
 pub proof fn lemma_isum_remove(s: Seq<int>, i: int)
     requires 0 <= i < s.len(),
@@ -112,6 +121,12 @@ pub open spec fn moved_oldest(full: Seq<int>, k: int, cur: Seq<int>, cap: usize)
     0 <= k <= full.len() && cur == full.subrange(k, full.len() as int) && (k > 0 ==> isum(full.subrange(k - 1, full.len() as int)) > cap)
 }
 
+/// the in-eviction flags cleared by `record.set_in_eviction(false)` (atomic flag behind `&self`), as a ghost log
+pub struct FlagLog { pub out: Ghost<Set<int>> }
+impl FlagLog {
+    #[verifier::external_body]
+    pub fn set(&mut self, r: &QRec, v: bool) ensures final(self).out@ == (if v { old(self).out@.remove(r.id@) } else { old(self).out@.insert(r.id@) }) { }
+}
 pub struct LruT {
     pub high_priority_list: ListT, pub list: ListT, pub pin_list: ListT,
     pub high_priority_weight: usize, pub high_priority_weight_capacity: usize,
@@ -281,7 +296,7 @@ impl LruT {
                 && final(self).high() == old(self).high(), // @label the_oldest_low_priority_record_is_evicted_first
             old(self).low().len() == 0 && old(self).high().len() > 0 ==> r is Some && r.unwrap().id@ == old(self).high()[0]
                 && final(self).high() == old(self).high().subrange(1, old(self).high().len() as int) && final(self).low() == old(self).low(), // @label then_the_oldest_record_of_the_high_priority_pool
-            old(self).low().len() == 0 && old(self).high().len() == 0 ==> r is None && final(self).st@ == old(self).st@, // @label nothing_is_evicted_when_only_held_records_are_left
+            old(self).low().len() == 0 && old(self).high().len() == 0 ==> r is None && final(self).st@ == old(self).st@ && final(self).high() == old(self).high() && final(self).low() == old(self).low(), // @label nothing_is_evicted_when_only_held_records_are_left
             r is Some ==> !final(self).st@(r.unwrap().id@).in_high_priority_pool && final(self).st_same_but(old(self), r.unwrap().id@),
 //@prologue
         let ghost h0 = self.high();
@@ -297,6 +312,34 @@ impl LruT {
             assert forall|id: int| #[trigger] self.low().contains(id) implies !self.st@(id).in_high_priority_pool && !self.st@(id).is_pinned by { assert(l0.contains(id)); }
             assert forall|id: int| #[trigger] self.pin().contains(id) implies self.st@(id).is_pinned by { if id == x { assert(old(self).st@(id).is_pinned); } }
         }
+//@end
+
+// ---- Lru::clear: every record leaves -- the evictable ones through pop, the HELD ones (pin list) through the drain loop,
+// each of which is flagged out of the eviction container (whatever pool it belonged to) and out of the pool; all three
+// lists end empty, the pool counter at 0
+//@region foyer-memory/src/eviction/lru.rs :: impl~^impl<K, V, P> Eviction for Lru<K, V, P>/fn clear name=lru_clear whole=1 rules=assert-eq sub=@let state = unsafe \{ &mut \*record\.state\(\)\.get\(\) \};@@ subopt=@assert!\(!state\.link\.is_linked\(\)\);@@ subopt=@if state\.in_high_priority_pool \{@if self.verif_high(&record) {@ subopt=@state\.in_high_priority_pool = false;@self.verif_set_high(&record, false);@ subopt=@record\.set_in_eviction\(@verif_flags.set(&record, @ sub=@self\.pop\(\)@self.lru_pop()@
+//@head
+    fn lru_clear(&mut self, verif_flags: &mut FlagLog)
+        requires old(self).wf(),
+        ensures
+            final(self).high().len() == 0 && final(self).low().len() == 0 && final(self).pin().len() == 0 && final(self).high_priority_weight == 0, // @label clear_empties_all_three_lists
+            forall|id: int| #[trigger] old(self).pin().contains(id) ==> final(verif_flags).out@.contains(id), // @label every_held_record_is_flagged_out_of_the_eviction_container_by_clear
+            forall|id: int| #[trigger] old(self).pin().contains(id) ==> !final(self).st@(id).in_high_priority_pool,
+//@prologue
+        let ghost p0 = self.pin();
+//@loop 1
+            invariant self.wf(), self.pin() == p0,
+            ensures self.wf(), self.pin() == p0, self.high().len() == 0 && self.low().len() == 0,
+            decreases self.low().len() + self.high().len(),
+//@loop 2
+            invariant self.high().len() == 0, self.low().len() == 0, self.high_priority_weight == 0,
+                forall|id: int| #[trigger] p0.contains(id) ==> self.pin().contains(id) || (verif_flags.out@.contains(id) && !self.st@(id).in_high_priority_pool), // @label every_held_record_is_flagged_out_of_the_eviction_container_by_clear
+            ensures self.pin().len() == 0,
+            decreases self.pin().len(),
+//@before /if self\.verif_high\(&record\) \{/
+            proof { lemma_pop_front_keeps_the_rest(); }
+//@after /while self\.lru_pop\(\)\.is_some\(\) \{\}/
+        proof { lemma_isum_empty(self.high()); }
 //@end
 
 // ---- Lru::remove: the record leaves the list its flags name (a held record: the pin list), the pool weight follows
